@@ -88,6 +88,8 @@ def run(p, led, tier):
         return any(d[2].startswith("ret(on_mutation)") and d[3] is True for d in it.decisions)
 
     # ---------------- R1/R2: mutate & add_gene & expression ops
+    CALLBACK_RAISED = []      # per path on which the approval callback raised: did the gene table change?
+
     def op_runner(opname, args_fn):
         def go(o, allow, cb):
             it, obj = mk(o, allow, cb)
@@ -99,6 +101,8 @@ def run(p, led, tier):
                 r = it.call_fi(m, [obj] + args_fn(it), {})
             except PyRaise as e:
                 if "on_mutation" in repr(e.exc):
+                    # the approval callback raised instead of answering: nothing was approved, so nothing may have changed
+                    CALLBACK_RAISED.append(genes_snap(obj) != before)
                     return None
                 raise
             log = obj.fields[MLOG]
@@ -144,6 +148,13 @@ def run(p, led, tier):
                     led.fail("C20-R1" if not any("logged" in x for x in probs) else "C20-R2", key, where(m, m.node), "; ".join(sorted(set(probs))))
                 else:
                     led.ok("C20-R1", key, where(m, m.node), f"{len(paths)} path(s); table changed on {sum(1 for _, r in paths if r['changed'])} of them, each authorised")
+    key = "Genome ▸ an approval callback that raises approves nothing (the gene table is unchanged when its exception propagates)"
+    if any(CALLBACK_RAISED):
+        led.fail("C20-R1", key, where(p.find_method(genome, "mutate"), p.find_method(genome, "mutate").node),
+                 f"{sum(CALLBACK_RAISED)} of {len(CALLBACK_RAISED)} path(s) on which the callback raises leave a changed gene table behind",
+                 witness="on_mutation raises while deciding about model → 'rogue-model': the exception propagates and the genome now holds 'rogue-model'")
+    elif CALLBACK_RAISED:
+        led.ok("C20-R1", key, where(p.find_method(genome, "mutate"), p.find_method(genome, "mutate").node), f"{len(CALLBACK_RAISED)} raising path(s): table unchanged on each")
     # R2 explicit: refused mutate logs
     mut = p.find_method(genome, "mutate")
     go = op_runner("mutate", ops["mutate(existing)"][1])
@@ -388,12 +399,12 @@ def run(p, led, tier):
     # ---------------- R6 rollback
     rb = p.find_method(genome, "rollback_mutation")
     mcls = p.cls("Mutation", G)
-    for allow in (False, True):
+    for allow, PREV in [(a_, v_) for a_ in (False, True) for v_ in ("v1", None, 0, "", False)]:
         def go_rb(o):
             it, obj = mk(o, allow, "none", trace=("Genome.mutate",))
             log = obj.fields[MLOG]
-            log.append(it.instantiate(mcls, [], dict(gene_name="g1", original_value="v0", new_value="v1", approved=True)))
-            log.append(it.instantiate(mcls, [], dict(gene_name="g1", original_value="v1", new_value="v2", approved=True)))
+            log.append(it.instantiate(mcls, [], dict(gene_name="g1", original_value="v0", new_value=PREV, approved=True)))
+            log.append(it.instantiate(mcls, [], dict(gene_name="g1", original_value=PREV, new_value="v2", approved=True)))
             log.append(it.instantiate(mcls, [], dict(gene_name="g1", original_value="v2", new_value="v3", approved=False)))
             log.append(it.instantiate(mcls, [], dict(gene_name="other", original_value="x", new_value="y", approved=True)))
             seen = []
@@ -411,15 +422,15 @@ def run(p, led, tier):
             r = it.call_fi(rb, [obj, "g1"], {})
             return dict(ret=r, seen=seen, changed=genes_snap(obj) != before, value=obj.fields[GENES]["g1"].fields["value"])
         paths = explore(go_rb, max_paths=50)
-        key = f"Genome.rollback_mutation ▸ allow_mutations={allow}"
+        key = f"Genome.rollback_mutation ▸ allow_mutations={allow} ▸ preceding value {PREV!r}"
         probs = []
         for _, r in paths:
-            if r["seen"] != [("g1", "v1")]:
-                probs.append(f"rollback requested {r['seen']} instead of mutate('g1', 'v1') (the value preceding the last approved mutation)")
+            if not (len(r["seen"]) == 1 and r["seen"][0][0] == "g1" and r["seen"][0][1] is PREV or r["seen"] == [("g1", PREV)] and type(r["seen"][0][1]) is type(PREV)):
+                probs.append(f"rollback requested {r['seen']} instead of mutate('g1', {PREV!r}) (the value preceding the last approved mutation)")
             if r["changed"] and not allow:
                 probs.append("rollback changed the gene table with mutations disabled")
-            if allow and r["value"] != "v1":
-                probs.append(f"after rollback the value is {r['value']!r}, not 'v1'")
+            if allow and not (r["value"] is PREV or (r["value"] == PREV and type(r["value"]) is type(PREV))):
+                probs.append(f"after rollback the value is {r['value']!r}, not {PREV!r}")
         if probs:
             led.fail("C20-R6", key, where(rb, rb.node), "; ".join(sorted(set(probs))))
         else:
